@@ -104,3 +104,30 @@ reg(Prop("C02", ["Properties_C02"], [load_stream()],
          level_note="Theorem: builder machine = recursive-descent spec; byte loop = machine o tokenisation; tied by the load stream (release + ASan/UBSan, input block freed before the tree is read, refcounts checked)"))
 reg(Prop("C05", ["Properties_C05"], [load_stream()],
          level_note="Same master theorem, error classes and positions included; result struct pre-filled with a sentinel; live-block count after every failure"))
+
+def decoded_trees(ctx):
+    """trees the decoder returns for the C02 input space (taken from the model's own output) + API-built trees"""
+    import subprocess
+    from . import corr
+    cases = cborgen.load_cases(ctx)
+    lines = corr.run_stream(corr.model_cmd("load", [LDEF, CAP]), cases, timeout=600)
+    seen, out = set(), []
+    for l in lines:
+        if l.startswith("ok "):
+            sx = l.split(" ", 2)[2]
+            if sx not in seen and len(sx) < 400:
+                seen.add(sx); out.append(sx)
+    step = max(1, len(out) // (3000 if ctx.tier == "quick" else 60000))
+    return out[::step] + treegen.ser_cases(ctx)
+
+reg(Prop("C03", ["Properties_C03"], [
+    Stream("rt", "rt", decoded_trees, args=(LDEF, CAP), flavours=("rel", "dbg"), nontrivial=lambda c, l: " -> ok " in l,
+           rule="every distinct tree the decoder returns for the C02 input space (sub-sampled in quick) plus API-built enumerated / random trees: serialize_alloc, cbor_load of the bytes followed by two garbage bytes, dump, re-serialize and compare; non-trivial = the bytes load back"),
+    Stream("ser", "ser", treegen.ser_cases, flavours=("rel",), nontrivial=lambda c, l: True,
+           rule="API-built trees: exact bytes of serialization (see C07)"),
+], level_note="Theorems: serialize_into = encode_rfc (C07_into) and load (encode_rfc t ++ rest) = canon t for every tree satisfying rt_ok; tied by the rt / ser streams"))
+
+reg(Prop("C18", ["Properties_C18"], [
+    Stream("rdonly", "rdonly", treegen.ser_cases, flavours=("rel", "O0"), nontrivial=lambda c, l: "(tag" in c or "(arr" in c or "(map" in c,
+           rule="every tree of the ser space built inside an arena that is then mprotect(PROT_READ)-ed; cbor_serialized_size, cbor_serialize and every predicate / getter that hands out no reference run under the protection at -O2 and -O0; a store faults deterministically and is reported with the node path; byte image compared before/after; non-trivial = tree with at least one container or tag"),
+], level_note="Theorem about model H's access log (every store to an existing block is logged); the model is tied to the real code by the write-protected arena runs and by the hist stream"))
